@@ -58,7 +58,7 @@ def scenarios(ctx):
     return sorted(out)
 
 
-DTYPES = ["f8", "f4", "i8"]
+DTYPES = ["f8", "f4", "i8", "u2"]     # u2: coordinates f8, weight and patch index columns unsigned 16 bit
 
 
 def base_columns(L, seed, dtype, degrees):
@@ -66,20 +66,31 @@ def base_columns(L, seed, dtype, degrees):
     rng = np.random.default_rng(seed)
     idx = np.arange(1, L + 1)
     side = idx % 2
+    unsigned = dtype == "u2"
+    if unsigned:
+        dtype = "f8"
     if dtype == "i8":
         ra = (10 + 4 * side + (idx % 2)).astype("i8")  # integer degrees
         dec = (idx % 3 - 1).astype("i8")
     else:
         ra = (10.0 + 4.0 * side + rng.uniform(0, 1, L)).astype(dtype)
         dec = rng.uniform(-1, 1, L).astype(dtype)
+    if dtype == "f8" and L >= 4:
+        # two records 1e-7 deg either side of the bisector of the two centres (the meridian ra = 12.5): far above double
+        # precision rounding, far below single precision
+        ra[L - 1], side[L - 1] = 12.5 - 1e-7, 0
+        ra[L - 2], side[L - 2] = 12.5 + 1e-7, 1
     if not degrees:
         ra = np.deg2rad(ra.astype("f8")).astype("f8" if dtype == "i8" else dtype)
         dec = np.deg2rad(dec.astype("f8")).astype("f8" if dtype == "i8" else dtype)
     w = idx.astype(dtype if dtype != "i8" else "i8")  # record id, exact in f4 for small L
     z = (0.1 + rng.uniform(0, 0.9, L)).astype("f8" if dtype == "i8" else dtype)
     pid = side.astype("i8")
+    if unsigned:
+        w = (idx + 40000).astype("u2")     # beyond the int16 range: a signed reading would be negative
+        pid = side.astype("u2")
     # a stale patch column that disagrees with the centres (documented: ignored when patch_centers is given)
-    return dict(ra=ra, dec=dec, w=w, z=z, pid=pid, pid_stale=(1 - side).astype("i8"))
+    return dict(ra=ra, dec=dec, w=w, z=z, pid=pid, pid_stale=(1 - side).astype(pid.dtype))
 
 
 def write_source(fmt, cols, workdir, groups=None):
@@ -230,7 +241,7 @@ def run(ctx) -> None:
         for (L, CS, W) in (combos * 20)[:nper]:
             n += 1
             fmt = ["frame", "hdf", "fits", "parquet"][n % 4]
-            dtype = DTYPES[(n // 4) % 3]
+            dtype = DTYPES[(n // 4) % 4]
             has_w, has_z = [(True, True), (True, False), (False, True), (False, False)][(n // 3) % 4]
             degrees = (n % 5) != 0
             mode = ["apply", "divide", "apply", "create", "apply_both", "divide", "apply", "create"][(n // 2) % 8]
